@@ -389,9 +389,90 @@ def deep_folded_lengths(ctx, rng, n):
         check_case(ctx, case, rng)
 
 
+def api_histories(ctx):
+    """Round trips after the type or the cstruct object was changed through the API:
+    (a) a structure that was already written is extended (a single add_field, a batch inside start_update(), both), then a
+    value with all members is dumped and parsed back;
+    (b) pointer types (a typedef, members, fixed / counted / null-terminated arrays of pointers) made under one pointer
+    width keep it after cs.pointer was reassigned: values written are read back, by both readers."""
+    import io
+
+    for compiled in (True, False):
+        for endian in "<>":
+            bo = "little" if endian == "<" else "big"
+            for how in ("add_field", "batch", "both"):
+                ctx.evaluation(("api-history:extend", compiled, endian, how))
+                ctx.cell("written-then-extended")
+                det = {"workload": "api-histories", "compiled": compiled, "endian": endian, "how": how}
+                try:
+                    cs = lib.load("struct T { uint16 a; uint8 b; };", endian, False, compiled)
+                    T = cs.T
+                    first = (T(a=0x1234, b=2).dumps(), len(T), bytes(T(a=1, b=1)), T(b"\x01\x02\x03").dumps())
+                    if how in ("add_field", "both"):
+                        T.add_field("c", cs.uint32)
+                        T(a=1, b=2, c=3).dumps()
+                    if how in ("batch", "both"):
+                        with T.start_update():
+                            T.add_field("d", cs.uint16)
+                            T.add_field("e", cs.char[3])
+                    kw = dict(a=0x1234, b=2)
+                    want = (0x1234).to_bytes(2, bo) + b"\x02"
+                    if how in ("add_field", "both"):
+                        kw["c"] = 0xA1B2C3D4
+                        want += (0xA1B2C3D4).to_bytes(4, bo)
+                    if how in ("batch", "both"):
+                        kw.update(d=0xBEEF, e=b"xyz")
+                        want += (0xBEEF).to_bytes(2, bo) + b"xyz"
+                    v = T(**kw)
+                    d = v.dumps()
+                    st = io.BytesIO(d + b"\xEE")
+                    back = T(st)
+                    ok = d == want and back == v and st.tell() == len(d) and all(getattr(back, k) == kw[k] for k in kw) and len(T) == len(want)
+                except Exception as e:  # noqa: BLE001
+                    ctx.violation("api", f"api-history-raises:{type(e).__name__}", dict(det, error=lib.exc_sig(e)))
+                    continue
+                if not ok:
+                    ctx.violation("api", "roundtrip-mismatch-after-the-structure-was-extended", dict(det, dump=d.hex(), want=want.hex(), first=repr(first)[:200]))
+                else:
+                    ctx.event("api_histories_checked")
+            for w1, w2 in (("uint16", "uint64"), ("uint64", "uint16"), ("uint32", "uint8"), ("uint8", "uint32")):
+                ctx.evaluation(("api-history:pointer-width", compiled, endian, w1, w2))
+                ctx.cell("pointer-width-switched-after-definition")
+                det = {"workload": "api-histories", "compiled": compiled, "endian": endian, "first": w1, "second": w2}
+                try:
+                    cs = lib.cstruct(endian=endian, pointer=w1)
+                    cs.load("typedef char *PSTR;\nstruct T { PSTR s; uint8 *arr[2]; uint8 n; uint16 *dyn[n]; uint32 *z[]; uint8 t; };", compiled=compiled)
+                    size = len(getattr(cs, w1))
+                    cs.pointer = getattr(cs, w2)
+                    hi = (1 << (8 * size)) - 1
+                    vals = dict(s=hi, arr=[1, hi - 1], n=2, dyn=[hi - 2, 3], z=[5, hi - 3], t=0x7E)
+                    v = cs.T(**vals)
+                    d = v.dumps()
+                    want = b"".join(x.to_bytes(size, bo) for x in [hi, 1, hi - 1]) + b"\x02" + b"".join(x.to_bytes(size, bo) for x in [hi - 2, 3, 5, hi - 3, 0]) + b"\x7E"
+                    st = io.BytesIO(d + b"\xEE" * 9)
+                    back = cs.T(st)
+                    got = (int(back.s), [int(x) for x in back.arr], int(back.n), [int(x) for x in back.dyn], [int(x) for x in back.z], int(back.t), st.tell())
+                    ok = d == want and got == (hi, [1, hi - 1], 2, [hi - 2, 3], [5, hi - 3], 0x7E, len(want))
+                    # and a value beyond the width the type was made with is refused, whatever cs.pointer is now
+                    try:
+                        cs.T(**dict(vals, s=hi + 1)).dumps()
+                        ok = False
+                    except Exception:  # noqa: BLE001
+                        pass
+                except Exception as e:  # noqa: BLE001
+                    ctx.violation("api", f"api-history-raises:{type(e).__name__}", dict(det, error=lib.exc_sig(e)))
+                    continue
+                if not ok:
+                    ctx.violation("api", "roundtrip-mismatch-after-the-pointer-type-was-switched", dict(det, dump=d.hex(), want=want.hex(), got=repr(got)))
+                else:
+                    ctx.event("api_histories_checked")
+
+
 def run(ctx):
     if ctx.shard == 0:
         witnesses(ctx)
+    if ctx.shard == 3:
+        api_histories(ctx)
     if ctx.shard % 4 == 2:
         explicit_offsets(ctx, 25 if not ctx.thorough else 400)
     if ctx.shard % 4 == 1:
@@ -412,6 +493,10 @@ def replay(ctx, detail):
     if detail.get("workload") == "explicit-offsets":
         print(detail)
         explicit_offsets(ctx, 3, pinned=detail)
+        return
+    if detail.get("workload") == "api-histories":
+        print(detail)
+        api_histories(ctx)
         return
     case = engine.case_from_detail(detail)
     cfgd = detail["cfg"]
